@@ -4,6 +4,7 @@ import (
 	"bytes"
 	"fmt"
 	"io"
+	"time"
 
 	"go.pennock.tech/tabular/properties"
 	"go.pennock.tech/tabular/properties/align"
@@ -62,6 +63,11 @@ func (engC15) Runs(tier string) int {
 	}
 	return 120
 }
+
+// HangTimeout: a run executes several hundred faulted renders, of tall tables
+// at times; seconds on an idle machine.
+func (engC15) HangTimeout() time.Duration { return 5 * time.Minute }
+
 func (engC15) Rule() string {
 	return "each run builds one seeded table (headers, ragged/multi-line/wide/markup texts, separators, late Row.Add, alignment and skipable column settings; some tables are tall (66-140 more rows) or hold one cell of 10000 characters) and lists 6-10 renderer routes (text under every built-in decoration and a custom one, csv, html with/without row-class generator and caption, json, markdown; via wrapper.RenderTo on a fresh wrapper or on one wrapper reused for all faults of the route, package RenderTo and auto.RenderTo; plain io.Writer or one that also offers WriteString). For each route a fault-free pass records the output O and the number N of Write calls; then EVERY k in 0..N-1 x {sticky, once, partial-then-failing, partial-then-succeeding} is executed (exhaustive in the fault dimension, sampled over tables). evaluations counts faulted renders. A run is non-trivial if its table has a header and at least one row; distinct = distinct (table shape, route list) hashes."
 }
@@ -185,7 +191,8 @@ func newSimWriter(flags int, y Yielder) (io.Writer, *SimWriter) {
 	return sw, sw
 }
 
-func (engC15) Exec(s *Script, keepLog bool) *Result {
+func (engC15) Exec(s *Script, keepLog bool) (guarded *Result) {
+	defer guardExec("C15", &guarded)
 	w := NewWorld(s.Cfg("kind", 0), "utf8-light", nil, NewEventLog(keepLog))
 	res := &Result{}
 	routes := newHasher()
